@@ -113,7 +113,7 @@ Qed.
 Theorem step_ghost s o s' : wf cfg s -> Ghost s -> step cfg s o = Ok s' -> Ghost s'.
 Proof.
   intros [Hu _] HG H. unfold step, step_gen in H.
-  destruct o as [c u tok amt dst rcv cd cb ftok fee|src dst sq|src dst sq|c u dst sq amt].
+  destruct o as [c u tok amt dst rcv cd cb ftok fee|src dst sq|src dst sq|c u dst sq amt|k src dst sq]; [| | | |discriminate].
   - destruct (transfer_chain cfg c (chains s c) (User u) tok amt dst rcv cd (if cb then CbBroken else CbNone) ftok fee) as [[cs p]|] eqn:E; [|discriminate].
     inv H. intros q Hq. cbn in Hq. apply in_app_or in Hq as [Hq|[<-|[]]]; [apply HG; exact Hq|].
     eapply fresh_ghost; eauto. exact I.
@@ -161,7 +161,7 @@ Theorem step_status s o s' src dst sq q :
              (p_status q' <> p_status q -> o = Recv src dst sq \/ o = Ack src dst sq).
 Proof.
   intros HG H Hl. unfold step, step_gen in H.
-  destruct o as [c u tok amt dst0 rcv cd cb ftok fee|src0 dst0 sq0|src0 dst0 sq0|c u dst0 sq0 amt].
+  destruct o as [c u tok amt dst0 rcv cd cb ftok fee|src0 dst0 sq0|src0 dst0 sq0|c u dst0 sq0 amt|k src0 dst0 sq0]; [| | | |discriminate].
   - destruct (transfer_chain cfg c (chains s c) (User u) tok amt dst0 rcv cd (if cb then CbBroken else CbNone) ftok fee) as [[cs p]|]; [|discriminate].
     inv H. cbn. rewrite lookup_app, Hl. exists q. split; [reflexivity|]. split; [constructor|congruence].
   - destruct (lookup src0 dst0 sq0 (packets s)) as [p|] eqn:El; [|discriminate].
